@@ -16,6 +16,7 @@ from ..interp import (Interp, State, Num, BoolV, StructV, EnumV, TupleV, RefV, C
 from .common import *
 
 GP = 'synth_utils::glide_processor::GlideProcessor'
+KNOWN_GP_FIELDS = ('min_fc', 'max_fc', 'fs', 'lpf', 'cached_t')
 GP_FIELDS = {'fs', 'lpf', 'cached_t'}
 DF1 = 'biquad::DirectForm1'
 COEF = 'biquad::coefficients::Coefficients'
@@ -99,6 +100,13 @@ class Gl:
         for n in co.names:
             co.set(n, float_sym(st, 'coef.' + n))
         gp.set('cached_t', float_sym(st, 'cached_t'))
+        # private state added later (flags, caches, counters) is arbitrary in a reachable pre-state: never the constructor's value
+        adt = self.facts.adt(GP)
+        located = set((adt.get('canon_paths') or {}).values() and [p[0] for p in adt['canon_paths'].values()])
+        for i, f in enumerate(adt['variants'][0]['fields']):
+            if f['name'] in KNOWN_GP_FIELDS or i in located:
+                continue
+            gp.fields[i] = it.sym_value(st, f['ty'], 'self.' + f['name'])
         return gp
 
 
